@@ -547,6 +547,7 @@ theorem c_apply {st : State} {m : Send} (hs : SInv (view st) m) (h : CInv T S (r
   | cancel id => exact Or.inr (c_cancel h hs.nodup id)
   | read id n => exact c_read h hs.nodup id n
   | close id => exact c_close h hs.nodup id
+  | wake => exact Or.inr h
   | peer f => exact c_peer hs h f
 
 theorem k_step {st : State} {m : Send} (hs : SInv (view st) m) (h : K T S st) (op : Op) :
